@@ -239,6 +239,20 @@ def gen_schema(rng, sw):
             name = f"U{next(counter)}"
             names.add(name)
             schema.append({"k": "uref", "name": name, "members": members})
+    urefs_ = [i for i, ty in enumerate(schema) if ty["k"] == "uref"]
+    cands_ = [i for i in range(len(schema)) if schema[i]["k"] in ("struct", "array") and depth(schema, i) < max_depth]
+    if sw.get("urefs") and urefs_ and len(cands_) >= 2 and rng.random() < 0.5:
+        # a second union over a different member list (same classes at other positions, some only
+        # in one of the two), held by a struct: what one union learns must not leak into the other
+        u1 = schema[urefs_[-1]]
+        pool = [c for c in cands_ if c not in u1["members"]] + list(u1["members"])
+        k2 = min(len(pool), rng.choice([1, 2, 3]))
+        members = rng.sample(pool, k2)
+        if members != list(u1["members"]):
+            c = next(counter)
+            schema.append({"k": "uref", "name": f"U{c}", "members": members})
+            u2 = len(schema) - 1
+            schema.append({"k": "struct", "name": f"S{next(counter)}", "fields": [["p", urefs_[-1]], ["q", u2], ["z", rng.choice(idx_sc)]], "decl": "class"})
     if sw.get("ref_chain"):
         # guaranteed reference chains: a referent that holds a reference itself, holders of both,
         # and an array of references (deep duplication / aliasing across levels)
